@@ -476,6 +476,18 @@ def alternation_instance(kind, iterations, aligner=False, from_model=False, K=2,
                 yield 'e-step-0-uses-given-model', sp._f(getattr(e[1], '_tag', None) == 99)
             if kind == 'cacgmm':
                 yield 'e-step-%d-clips-with-affiliation-eps' % i, sp._f(e[2][2] == 1e-10)
+        # every M-step works on the caller's observation, projected on the unit sphere by the directional models (frames first for
+        # the cACG family); the internal E-step of the cACGMM gets the same tensor
+        yv = np.asarray(inp['y'])
+        unit = yv / np.linalg.norm(yv, axis=-1, keepdims=True)
+        want_obs = {'gmm': yv, 'vmfmm': unit, 'cwmm': unit, 'cacgmm': np.swapaxes(unit, -1, -2)}[kind]
+        for i, mcall in enumerate(ms):
+            got = np.asarray(mcall[1][0]) if mcall[1] else None
+            yield 'm-step-%d-observation-is-the-(unit-norm)-input' % i, sp._f(got is not None and got.shape == want_obs.shape and bool(np.allclose(got, want_obs, rtol=1e-12, atol=0)))
+        if kind == 'cacgmm':
+            for i, e in enumerate(es):
+                got = np.asarray(e[2][0])
+                yield 'e-step-%d-observation-is-the-unit-norm-input' % i, sp._f(got.shape == want_obs.shape and bool(np.allclose(got, want_obs, rtol=1e-12, atol=0)))
         # M-step i receives the affiliation (and quadratic form) of the preceding E-step, after inline alignment
         for i, mcall in enumerate(ms):
             a, k = mcall[1], mcall[2]
